@@ -28,8 +28,9 @@ def val(name, shape):
 
 
 class G:
-    def __init__(self, draw, maxdepth):
+    def __init__(self, draw, maxdepth, fields=None):
         self.draw = draw
+        self.fields = fields       # None | 'interior' | 'boundary' | 'interfaces'
         self.vars = {}
         self.used = set()
         self.maxdepth = maxdepth
@@ -47,6 +48,9 @@ class G:
 
     def var(self, idx):
         """idx: list of letters / digit strings; returns a var node with a suitably shaped namespace variable"""
+        if self.fields and len(idx) <= 2 and all((LEN[x] == 2) if x.isalpha() else x in '01' for x in idx) and self.boolean(.65):
+            names = {0: ['fa', 'fb', 'ha'] + (['dV'] if self.fields == 'interior' else ['dS'] if self.fields == 'boundary' else []), 1: ['ga', 'gb'] + (['n'] if self.fields == 'boundary' else []), 2: ['ma']}[len(idx)]
+            return dict(t='var', name=self.choice(names), idx=list(idx))
         shape = []
         for x in idx:
             shape.append(LEN[x] if x.isalpha() else int(x) + self.integer(1, 2))
@@ -92,14 +96,25 @@ class G:
         kinds = ['var', 'var']
         if not repeated and depth > 0:
             kinds += ['scope', 'call', 'pow', 'powvar', 'gen']
+        if self.fields and not repeated and depth > 0:
+            if idx and LEN[idx[-1]] == 2: kinds += ['grad', 'grad']
+            if not idx: kinds += ['div']
         kind = self.choice(kinds)
+        if kind == 'grad':
+            return dict(t='call', f='∇', gen=[idx[-1]], e=self.expr(idx[:-1], depth - 1))
+        if kind == 'div':
+            c = next((x for x in LETTERS if x not in self.used and LEN[x] == 2), None)
+            if c is not None:
+                self.used.add(c); self.nsummed += 1
+                return dict(t='call', f='∇', gen=[c], e=self.expr([c], depth - 1))
+            kind = 'var'
         if kind == 'var' or repeated:
             full = list(idx)
             if self.boolean(.25):
                 full.insert(self.integer(0, len(full)), str(self.integer(0, 1)))
             return self.var(full)
         if kind == 'scope':
-            return dict(t='scope', kind=self.choice(['(', '(', '(', '{']), e=self.expr(idx, depth - 1))
+            return dict(t='scope', kind=self.choice(['(', '(', '(', '{'] if not self.fields else ['(', '[', '{', '['] if self.fields == 'interfaces' else ['(']), e=self.expr(idx, depth - 1))
         if kind == 'call':
             return dict(t='call', f=self.choice(['sin', 'cos', 'exp', 'abs', 'sqr', 'tanh']), gen=[], e=self.expr(idx, depth - 1))
         if kind == 'gen' and idx:
@@ -173,9 +188,48 @@ def trace_dups(a, idx):
     return a, idx
 
 
-def evaluate(n, vars):
-    """returns (numpy array, list of index letters)"""
+FD_STENCIL = list(zip(numpy.array([-1, 9, -45, 45, -9, 1]) / 60., [-3, -2, -1, 1, 2, 3]))
+
+FIELDS = dict(
+    fa=lambda x: 1 + x[0] * x[1] - .5 * x[1] ** 2, fb=lambda x: x[0] ** 2 + .25 * x[1] + .5,
+    ga=lambda x: numpy.stack([x[0] * x[1], x[0] - x[1] ** 2]), gb=lambda x: numpy.stack([1 + x[1], x[0] ** 2 + 0 * x[1]]),
+    ma=lambda x: numpy.stack([numpy.stack([x[0], x[1]]), numpy.stack([x[0] * x[1], 1. + 0 * x[0]])]))
+
+
+def evaluate(n, vars, ctx=None):
+    """returns (numpy array, list of index letters); ctx (fields mode): dict(x=point, h=(value of the discontinuous field on this side, on the
+    other side), n=normal, dV=, dS=, fderr=[...]) for one sample point"""
     t = n['t']
+    if ctx is not None:
+        if t == 'var' and n['name'] in ('fa', 'fb', 'ga', 'gb', 'ma', 'ha', 'n', 'dV', 'dS'):
+            nm = n['name']
+            a = numpy.asarray(FIELDS[nm](ctx['x']) if nm in FIELDS else ctx['h'][0] if nm == 'ha' else ctx[nm], dtype=float)
+            idx = []; ax = 0
+            for x in n['idx']:
+                if x.isdigit(): a = numpy.take(a, int(x), axis=ax)
+                else: idx.append(x); ax += 1
+            return trace_dups(a, idx)
+        if t == 'call' and n['f'] == '∇':
+            def fd(h):
+                comps = []
+                for k in range(2):
+                    acc = 0
+                    for c, m in FD_STENCIL:
+                        x2 = numpy.array(ctx['x'], dtype=float); x2[k] += m * h
+                        a, ai = evaluate(n['e'], vars, dict(ctx, x=x2))
+                        acc = acc + c * a
+                    comps.append(acc / h)
+                return numpy.stack(comps, axis=-1), ai
+            g1, ai = fd(1e-2); g2, _ = fd(5e-3)
+            g2 = numpy.where(abs(g2) < 1e-9, 0., g2)     # the gradient of something that does not depend on x is exactly zero, not rounding noise (matters under sqrt/abs)
+            ctx['fderr'].append(float(abs(g1 - g2).max() / (1 + abs(g1).max())) if g1.size else 0.)
+            return trace_dups(g2, ai + list(n['gen']))
+        if t == 'scope' and n['kind'] in '[{':
+            a, ai = evaluate(n['e'], vars, ctx)
+            b, bi = evaluate(n['e'], vars, dict(ctx, h=ctx['h'][::-1]))
+            return (b - a if n['kind'] == '[' else .5 * (a + b)), ai
+        if t in ('term', 'frac', 'expr', 'scope', 'call', 'pow'):
+            return _evaluate_composite(n, vars, ctx)
     if t == 'var':
         a = val(n['name'], vars[n['name']])
         idx = []
@@ -186,33 +240,39 @@ def evaluate(n, vars):
             else:
                 idx.append(x); ax += 1
         return trace_dups(a, idx)
+    return _evaluate_composite(n, vars, None)
+
+
+def _evaluate_composite(n, vars, ctx):
+    t = n['t']
+    ev = lambda m: evaluate(m, vars, ctx)
     if t == 'term':
         a = numpy.array(float(n['num'])) if n['num'] else numpy.array(1.)
         idx = []
         for it in n['items']:
-            b, bi = evaluate(it, vars)
+            b, bi = ev(it)
             a = numpy.multiply.outer(a, b); idx = idx + bi
         return trace_dups(a, idx)
     if t == 'frac':
-        a, ai = evaluate(n['n'], vars); b, bi = evaluate(n['d'], vars)
+        a, ai = ev(n['n']); b, bi = ev(n['d'])
         assert not bi
         return a / b, ai
     if t == 'expr':
-        a, ai = evaluate(n['terms'][0][1], vars)
+        a, ai = ev(n['terms'][0][1])
         if n['neg']: a = -a
         for sign, term in n['terms'][1:]:
-            b, bi = evaluate(term, vars)
+            b, bi = ev(term)
             b = numpy.transpose(b, [bi.index(x) for x in ai])
             a = a + b if sign == '+' else a - b
         return a, ai
     if t == 'scope':
-        return evaluate(n['e'], vars)     # mean of a constant is the constant
+        return ev(n['e'])     # mean of a constant is the constant
     if t == 'call':
-        a, ai = evaluate(n['e'], vars)
+        a, ai = ev(n['e'])
         return trace_dups(FUNCS[n['f']](a), ai + list(n['gen']))
     if t == 'pow':
-        a, ai = evaluate(n['base'], vars)
-        e = float(n['exp']) if isinstance(n['exp'], str) else float(evaluate(n['exp'], vars)[0])
+        a, ai = ev(n['base'])
+        e = float(n['exp']) if isinstance(n['exp'], str) else float(ev(n['exp'])[0])
         with numpy.errstate(all='ignore'):
             return numpy.power(a, e), ai
     raise NotImplementedError(t)
@@ -662,6 +722,82 @@ def check_v1(case, rec):
     rec.label('v1:' + f)
 
 
+# ---- expressions over a mesh: gradients, divergence, normal, jacobians, jump and mean of discontinuous fields -------------
+
+@st.composite
+def field_cases(draw, tier):
+    mode = draw(st.sampled_from(['interior', 'boundary', 'interfaces', 'interfaces']))
+    g = G(draw, 2 if tier == 'quick' else 3, fields=mode)
+    nfree = draw(st.sampled_from([0, 0, 1, 1, 2]))
+    free = [g.fresh() for _ in range(nfree)]
+    tree = g.expr(free, g.maxdepth)
+    return dict(tree=tree, vars=g.vars, free=free, ws=draw(st.integers(0, 7)), mode=mode)
+
+
+_MESH = {}
+def _mesh():
+    if not _MESH:
+        from nutils import mesh, function
+        topo, xi = mesh.rectilinear([2, 2])
+        x = xi * numpy.array([1.5, .5])      # stretched, so that gradients with respect to x differ from those with respect to the mesh coordinates
+        ha = topo.basis('discont', degree=0) @ numpy.array([1., 2.5, -1., .5])
+        _MESH.update(topo=topo, x=x, ha=ha)
+    return _MESH
+
+
+def check_fields(case, rec):
+    from nutils import expression_v2, function
+    M = _mesh(); topo = M['topo']; x = M['x']
+    tree = case['tree']; mode = case['mode']
+    s = render(tree, case['ws'])
+    with warnings.catch_warnings(), numpy.errstate(all='ignore'):
+        warnings.simplefilter('ignore')
+        ns = namespace(case['vars'])
+        ns.x = x
+        ns.define_for('x', gradient='∇', normal='n', jacobians=('dV', 'dS'))
+        ns.fa = 1 + x[0] * x[1] - .5 * x[1] ** 2; ns.fb = x[0] ** 2 + .25 * x[1] + .5
+        ns.ga = numpy.stack([x[0] * x[1], x[0] - x[1] ** 2]); ns.gb = numpy.stack([1 + x[1], x[0] ** 2])
+        ns.ma = numpy.stack([numpy.stack([x[0], x[1]]), numpy.stack([x[0] * x[1], function.ones(())])])
+        ns.ha = M['ha']
+        smp = topo.sample('gauss', 1) if mode == 'interior' else topo.boundary.sample('gauss', 1) if mode == 'boundary' else topo.interfaces.sample('gauss', 1)
+        try:
+            arr = s @ ns
+        except expression_v2.ExpressionSyntaxError as e:
+            raise Violation('valid-rejected', f'{s!r}: {str(e).splitlines()[0]}', where='fields-valid-rejected:' + str(e).split('.')[0][:40])
+        except Exception as e:
+            raise Violation('valid-raised', f'{s!r}: {type(e).__name__}: {str(e)[:200]}', where='fields-valid-raised:' + type(e).__name__)
+        try:
+            got, X, HA, HB = smp.eval([arr, x, M['ha'], function.opposite(M['ha']) if mode == 'interfaces' else M['ha']])     # a boundary point has no opposite side
+        except Exception as e:
+            raise Violation('valid-raised', f'evaluating {s!r} on the {mode} sample: {type(e).__name__}: {str(e)[:200]}', where='fields-eval-raised:' + type(e).__name__)
+        got = numpy.asarray(got)
+        for p in range(len(X)):
+            if mode == 'boundary':
+                xp = X[p]
+                nrm = numpy.array([-1., 0.]) if abs(xp[0]) < 1e-9 else numpy.array([1., 0.]) if abs(xp[0] - 3) < 1e-9 else numpy.array([0., -1.]) if abs(xp[1]) < 1e-9 else numpy.array([0., 1.])
+                dS = .5 if nrm[0] else 1.5       # edge length scale along the boundary
+            else:
+                nrm = numpy.zeros(2); dS = 0.
+            ctx = dict(x=X[p], h=(HA[p], HB[p]), n=nrm, dV=.75, dS=dS, fderr=[])
+            want, idx = evaluate(tree, case['vars'], ctx)
+            if not numpy.isfinite(want).all() or (want.size and abs(want).max() > 1e8):
+                raise Discard('reference-nonfinite')
+            if ctx['fderr'] and max(ctx['fderr']) > 1e-8:
+                raise Discard('finite-difference-gradient-not-converged')     # kink (abs) or near-singular power under a gradient
+            order = sorted(idx)
+            want = numpy.transpose(want, [idx.index(i) for i in order]) if idx else want
+            if got[p].shape != want.shape or not numpy.allclose(got[p], want, rtol=1e-6, atol=1e-7 * (1 + (abs(want).max() if want.size else 0))):
+                raise Violation('wrong-value', f'{s!r} @ ns on the {mode} sample, point {p} x={X[p].tolist()}: {got[p].tolist()} != reading {want.tolist()} (indices {order})', where='value:fields:' + mode)
+    kinds = _kinds(tree)
+    names = {n['name'] for n in _walk(tree) if n['t'] == 'var'}
+    grads = sum(1 for n in _walk(tree) if n['t'] == 'call' and n['f'] == '∇')
+    rec.nontrivial = bool(grads or kinds & {'scope:[', 'scope:{'} or names & {'n', 'dV', 'dS'})
+    rec.key = hashlib.sha1((mode + s).encode()).hexdigest()[:16]
+    rec.label('mode:' + mode, 'gradients:%d' % min(grads, 3), *('field:' + n for n in names & {'fa', 'fb', 'ga', 'gb', 'ma', 'ha', 'n', 'dV', 'dS'}), *('fields-node:' + k for k in kinds if k.startswith('scope')))
+    if any(n['t'] == 'call' and n['f'] == '∇' and n['gen'][0] in _letters(n['e']) for n in _walk(tree)): rec.label('divergence')
+    if any(n['t'] == 'scope' and n['kind'] in '[{' and 'ha' in {m['name'] for m in _walk(n) if m['t'] == 'var'} for n in _walk(tree)): rec.label('jump-or-mean-of-discontinuous')
+
+
 # ---- single-character edits: rejected cleanly or accepted, never another exception -------------------------
 
 ALPHABET = list(' +-/^()[]{}<>_,.:?0123456789ijkvxδ∇$\t')
@@ -724,7 +860,8 @@ def check_edit(case, rec):
 SUBS = [Sub('valid', valid_cases, check_valid, {'quick': 1500, 'thorough': 20000}, weight=4),
         Sub('corrupt', corrupt_cases, check_corrupt, {'quick': 600, 'thorough': 6000}, weight=1),
         Sub('v1', v1_cases, check_v1, {'quick': 100, 'thorough': 1000}, weight=1),
-        Sub('edits', edit_cases, check_edit, {'quick': 1500, 'thorough': 30000}, weight=1)]
+        Sub('edits', edit_cases, check_edit, {'quick': 1500, 'thorough': 30000}, weight=1),
+        Sub('fields', field_cases, check_fields, {'quick': 500, 'thorough': 8000}, weight=3, timeout=120)]
 
 TRIGGERS = {}
 
